@@ -115,6 +115,17 @@ def _run_check(prop, tier, seed, replay):
         rep.coverage["trusted_base"] = C.TRUSTED_BASE + getattr(mod, "TRUSTED_EXTRA", [])
         rep.coverage["theorems"] = names
         mod.run(ctx)
+        # results the harness could not even inspect (common._worker_call): each is a failing input of its own
+        seen_where = set()
+        for f in C.INSPECTION_FAILURES:
+            key = f.get("escaped")
+            if key in seen_where or len(seen_where) >= 5:
+                continue
+            seen_where.add(key)
+            rep.violation(dict(kind="inspection-failed", where=key),
+                          "%s: after evaluating `%s` the delivered result could not be inspected: %s: %s (on the unchanged tree this never happens: the value, or the process state the evaluation leaves behind, differs)"
+                          % (prop, str(f.get("text"))[:200], key, f.get("msg")), dict(text=f.get("text"), outcome=key, message=f.get("msg")),
+                          found_input=f.get("text") is not None)
         # a broken obligation is reported unless the search produced a failing input for it (a listed open finding is not one)
         if not ctx["proof_ok"] and not rep.unlisted_inputs():
             broken = C.failing_lemmas(ctx.get("build_log"))
